@@ -16,6 +16,7 @@ import (
 	"go/ast"
 	"go/parser"
 	"go/token"
+	"go/types"
 	"math/big"
 	"os"
 	"path/filepath"
@@ -202,6 +203,141 @@ func (p *pkg) methodDecl(recv, name string) *ast.FuncDecl {
 		}
 	}
 	return nil
+}
+
+// assignedExprs returns the source text of every expression assigned (:= or =) to the plain identifier
+// `name` anywhere in fd, in source order.
+func assignedExprs(fd *ast.FuncDecl, name string) []string {
+	var out []string
+	if fd == nil {
+		return nil
+	}
+	ast.Inspect(fd.Body, func(n ast.Node) bool {
+		switch st := n.(type) {
+		case *ast.AssignStmt:
+			for i, l := range st.Lhs {
+				if id, ok := l.(*ast.Ident); ok && id.Name == name {
+					if len(st.Rhs) == len(st.Lhs) {
+						out = append(out, types.ExprString(st.Rhs[i]))
+					} else if len(st.Rhs) == 1 {
+						out = append(out, fmt.Sprintf("#%d of %s", i, types.ExprString(st.Rhs[0])))
+					}
+				}
+			}
+		case *ast.ValueSpec:
+			for i, id := range st.Names {
+				if id.Name == name {
+					if i < len(st.Values) {
+						out = append(out, types.ExprString(st.Values[i]))
+					} else {
+						out = append(out, "<zero value>")
+					}
+				}
+			}
+		case *ast.IncDecStmt:
+			if id, ok := st.X.(*ast.Ident); ok && id.Name == name {
+				out = append(out, types.ExprString(st.X)+st.Tok.String())
+			}
+		}
+		return true
+	})
+	return out
+}
+
+// indexKeysAssigned returns the index expressions k of every statement `<sel>[k] = ...` in fd whose indexed
+// operand prints as sel; sentValues the values v of every send `<ch> <- v` whose channel prints as ch.
+func indexKeysAssigned(fd *ast.FuncDecl, sel string) []string {
+	var out []string
+	if fd == nil {
+		return nil
+	}
+	ast.Inspect(fd.Body, func(n ast.Node) bool {
+		if st, ok := n.(*ast.AssignStmt); ok {
+			for _, l := range st.Lhs {
+				if ix, ok := l.(*ast.IndexExpr); ok && types.ExprString(ix.X) == sel {
+					out = append(out, types.ExprString(ix.Index))
+				}
+			}
+		}
+		return true
+	})
+	return out
+}
+
+func sentValues(fd *ast.FuncDecl, ch string) []string {
+	var out []string
+	if fd == nil {
+		return nil
+	}
+	ast.Inspect(fd.Body, func(n ast.Node) bool {
+		if st, ok := n.(*ast.SendStmt); ok && types.ExprString(st.Chan) == ch {
+			out = append(out, types.ExprString(st.Value))
+		}
+		return true
+	})
+	return out
+}
+
+// pkgCalls lists, in source order, the calls `<pkgName>.<F>(...)` made anywhere in fd, as "<pkgName>.<F>".
+func pkgCalls(fd *ast.FuncDecl, pkgName string) []string {
+	var out []string
+	if fd == nil {
+		return nil
+	}
+	ast.Inspect(fd.Body, func(n ast.Node) bool {
+		if ce, ok := n.(*ast.CallExpr); ok {
+			if sel, ok := ce.Fun.(*ast.SelectorExpr); ok {
+				if id, ok := sel.X.(*ast.Ident); ok && id.Name == pkgName {
+					out = append(out, pkgName+"."+sel.Sel.Name)
+				}
+			}
+		}
+		return true
+	})
+	return out
+}
+
+// callArgs returns the printed arguments (from index `from`) of the first call to `<pkgName>.<fn>` in fd.
+func callArgs(fd *ast.FuncDecl, pkgName, fn string, from int) ([]string, bool) {
+	var out []string
+	found := false
+	if fd == nil {
+		return nil, false
+	}
+	ast.Inspect(fd.Body, func(n ast.Node) bool {
+		if ce, ok := n.(*ast.CallExpr); ok && !found {
+			if sel, ok := ce.Fun.(*ast.SelectorExpr); ok && sel.Sel.Name == fn {
+				if id, ok := sel.X.(*ast.Ident); ok && id.Name == pkgName {
+					found = true
+					for i, a := range ce.Args {
+						if i >= from {
+							out = append(out, types.ExprString(a))
+						}
+					}
+				}
+			}
+		}
+		return true
+	})
+	return out, found
+}
+
+// callOrder returns, for the statements of fd's body (top level and nested), the source-ordered list of those
+// calls whose printed callee is in `names`.
+func callOrder(fd *ast.FuncDecl, names map[string]bool) []string {
+	var out []string
+	if fd == nil {
+		return nil
+	}
+	ast.Inspect(fd.Body, func(n ast.Node) bool {
+		if ce, ok := n.(*ast.CallExpr); ok {
+			if s := types.ExprString(ce.Fun); names[s] {
+				out = append(out, s)
+			}
+		}
+		return true
+	})
+	return out
 }
 
 func strLit(e ast.Expr) (string, bool) {
@@ -643,6 +779,36 @@ func main() {
 				return true
 			})
 		}
+		{
+			ssc := u.funcDecl("ShutdownSignalChan")
+			e.strs("shutdownSignalPkgCalls", pkgCalls(ssc, "signal"), ssc != nil, []string{"signal.Notify"}, "agent/utils ShutdownSignalChan: calls into os/signal (the handler is registered and never unregistered)")
+			sigsArgs, ok := callArgs(ssc, "signal", "Notify", 1)
+			e.strs("shutdownSignals", sigsArgs, ok, []string{"syscall.SIGINT", "syscall.SIGTERM"}, "agent/utils ShutdownSignalChan: signals passed to signal.Notify")
+			e.zs("shutdownChanCaps", u.chanCaps(ssc), ssc != nil, []int64{1, 0}, "agent/utils ShutdownSignalChan: capacities of the channels made (signal channel, notification channel)")
+			var elsewhere []string
+			for _, pk := range []*pkg{u, a} {
+				fns := pk.allFuncs()
+				var names []string
+				for n := range fns {
+					names = append(names, n)
+				}
+				sort.Strings(names)
+				for _, n := range names {
+					if n == "ShutdownSignalChan" {
+						continue
+					}
+					for _, c := range pkgCalls(fns[n], "signal") {
+						elsewhere = append(elsewhere, n+": "+c)
+					}
+				}
+			}
+			e.strs("signalPkgCallsElsewhere", elsewhere, true, nil, "agent, agent/utils: calls into os/signal outside ShutdownSignalChan (must be none)")
+			mn := a.funcDecl("main")
+			e.strs("mainLifecycleOrder", callOrder(mn, map[string]bool{"waitForHealthy": true, "runHealthChecks": true, "runAdapter": true, "utils.ShutdownSignalChan": true,
+				"requestPollingCancel": true, "time.Sleep": true, "log.Fatal": true}), mn != nil,
+				[]string{"log.Fatal", "log.Fatal", "waitForHealthy", "runHealthChecks", "runAdapter", "log.Fatal", "utils.ShutdownSignalChan", "requestPollingCancel", "time.Sleep", "log.Fatal"},
+				"agent main: source order of the life-cycle calls")
+		}
 		e.strs("forcedTransferEncoding", forced, u.funcDecl("NewResponseForwarder") != nil, []string{"chunked"}, "agent/utils NewResponseForwarder: TransferEncoding forced on the uploaded response")
 		roots := []string{"processOneRequest", "forwardRequest", "pollForNewRequests", "hostProxy"}
 		fs := a.fatalSites(roots)
@@ -663,6 +829,10 @@ func main() {
 		e.zs("proxyRequestIDsChanCap", caps, s.funcDecl("newProxy") != nil, []int64{0}, "server newProxy: capacity of the request-ID channel")
 		caps = s.chanCaps(s.funcDecl("newPendingRequest"))
 		e.zs("pendingRespChanCap", caps, s.funcDecl("newPendingRequest") != nil, []int64{0}, "server newPendingRequest: capacity of the response channel")
+		sh := s.methodDecl("proxy", "ServeHTTP")
+		e.strs("frontendIDSources", assignedExprs(sh, "id"), sh != nil, []string{"p.newID()"}, "server proxy.ServeHTTP: every expression assigned to the request ID `id` (must be the proxy's own fresh draw)")
+		e.strs("frontendTableKeys", indexKeysAssigned(sh, "p.requests"), sh != nil, []string{"id"}, "server proxy.ServeHTTP: keys under which a pending request is entered into p.requests")
+		e.strs("frontendEnqueued", sentValues(sh, "p.requestIDs"), sh != nil, []string{"id"}, "server proxy.ServeHTTP: values sent on the request-ID channel")
 		emit("Server", e)
 	}
 
